@@ -165,6 +165,30 @@ def cases(tier, r):
                            "minv": N(0), "maxv": N(maxv), "init": init, "names": names_for(r, 1, C, flat if ok_shape else [], True, nk), "tag": f"tgeom-{nk}"})
                 if nk in ("none", "valid") and init["form"] in ("percol", "scalar") and not any(init.get("nan", [])) and len(ps) % 5 == 0:
                     ps.append(dict(ps[-1], scale=[1, 2**40], tag=f"tgeom-{nk}-scaled"))
+    # Labware with virtual rows built directly (one real row): names are keyed by the real wells (row A); a key of another row -
+    # inside or beyond the virtual rows - names an unknown well
+    for V in (1, 4, 26):
+        for C in (1, 3):
+            init = {"form": "flat", "vals": [r.randint(1, 50) for _ in range(C)]}
+            base = {"x": "ctor", "kind": "labware", "name": "vlw", "rows": I(1), "cols": I(C), "vrows": VR(I(V)), "minv": N(0), "maxv": N(50), "init": init}
+            ps.append(dict(base, names=None, tag="vlabware-none"))
+            ps.append(dict(base, names={"wells": [[[0, cc], f"n{cc}"] for cc in range(C)]}, tag="vlabware-valid"))
+            for row in sorted({1, V - 1, V, 25} - {0, 26}):
+                ps.append(dict(base, names={"wells": [[[row, C - 1], "ghost"]]}, tag="vlabware-unknown-row"))
+            ps.append(dict(base, names={"wells": [[[0, C], "ghost"]]}, tag="vlabware-unknown-column"))
+    # tables of the wrong size that hold nothing but zeros are wrong sizes all the same
+    for (R, C) in ((2, 3), (1, 4), (3, 3), (8, 12)):
+        n = R * C
+        zero = [{"form": "flat", "vals": [0] * (n + 1)}, {"form": "flat", "vals": [0] * (n - 1)}, {"form": "flat", "vals": [0] * C},
+                {"form": "2d", "vals": [0] * (n + C), "ncols": C}, {"form": "2d", "vals": [0] * (C * C + C), "ncols": C + 1},
+                {"form": "flat", "vals": [0] * n}, {"form": "2d", "vals": [0] * n, "ncols": C}]
+        for init in zero:
+            ps.append({"x": "ctor", "kind": "labware", "name": "zeros", "rows": I(R), "cols": I(C), "vrows": NOVR, "minv": N(0), "maxv": N(9), "init": init,
+                       "names": None, "tag": "zeros"})
+    for C in (1, 3):
+        for k in (C + 1, C - 1, 2 * C):
+            ps.append({"x": "ctor", "kind": "trough", "name": "zeros", "rows": I(1), "cols": I(C), "vrows": VR(I(4)), "minv": N(0), "maxv": N(9),
+                       "init": {"form": "percol", "vals": [0] * k}, "names": None, "tag": "tzeros"})
     return ps
 
 
